@@ -35,8 +35,9 @@ PROPS = {
     },
     "C07": {
         "pkg": "hwriter", "test": "TestC07", "level": "exploration",
-        "quick": T(16, 400), "thorough": T(16, 60000, timeout=5000),
-        "rule": "rapid-generated packs (1..5 messages + closing tick) of insert (0..12 rows, 1..3 columns of int64/varchar/float/bool/float-vector/binary-vector/json), delete (int or string PKs), "
+        "quick": T(16, 0, tests=[{"test": "TestC07", "checks": 400}, {"test": "TestC07_InFlightCancel", "checks": 40, "shards": 4}]),
+        "thorough": T(16, 0, timeout=5000, tests=[{"test": "TestC07", "checks": 60000}, {"test": "TestC07_InFlightCancel", "checks": 1000, "shards": 8}]),
+        "rule": "TestC07_InFlightCancel: the caller's context ends (cancel or deadline) while the downstream call is in flight and the call then fails: the failure must be returned, no checkpoint. TestC07: rapid-generated packs (1..5 messages + closing tick) of insert (0..12 rows, 1..3 columns of int64/varchar/float/bool/float-vector/binary-vector/json), delete (int or string PKs), "
                 "drop-collection, drop-partition, import, tick with self-consistent timestamps; 1..4 concurrent HandleReplicateMessage calls on different channels; replicate id on/off; 5 name-mapping shapes; "
                 "downstream answering ok / error / undecodable position. Oracle: every serialized message decoded the way the Milvus proxy does (MsgHeader -> type -> ProtoUDFactory dispatcher) is proto.Equal "
                 "to the handed message (same index, same type), replicate marking and tick conversion, call-level fields, returned checkpoint, error propagation. "
